@@ -34,6 +34,21 @@ def targets(pid):
 
 
 def areas(pid):
+    """areas of the property's targets, the areas they build on first"""
+    out = []
+
+    def add(a):
+        for u in ST.AREAS[a].uses:
+            add(u)
+        if a not in out:
+            out.append(a)
+
+    for t in targets(pid):
+        add(t.area)
+    return out
+
+
+def own_areas(pid):
     out = []
     for t in targets(pid):
         if t.area not in out:
@@ -42,7 +57,7 @@ def areas(pid):
 
 
 def modules(pid):
-    return ['Yaql.Props.Src' + a for a in areas(pid)]
+    return ['Yaql.Props.Src' + a for a in own_areas(pid)]
 
 
 def theorems(pid):
@@ -60,10 +75,67 @@ def generate(pid):
         for b in i.get('_broken', []):
             broken.append(b)
         out[a] = dict(translated=i['translated'], targets=i['targets'])
+    for a in own_areas(pid):
+        broken += check_props(a, [t for t in targets(pid) if t.area == a])
     res = dict(src=out)
     if broken:
         res['_broken'] = broken
     return res
+
+
+def check_props(area, mine):
+    """When the translated text of an area changed since its equivalence theorems last checked: elaborate
+    Props/Src<Area>.lean once here, to NAME the theorems (and source functions) that no longer check.  (The
+    ordinary `lake build` of the check then fails on the same module; this only makes the report precise.)"""
+    import re
+    import subprocess
+    gen = os.path.join(common.LEAN, 'Yaql', 'Gen', 'Src%s.lean' % area)
+    props_rel = os.path.join('Yaql', 'Props', 'Src%s.lean' % area)
+    props = os.path.join(common.LEAN, props_rel)
+    stamp = gen + '.props-ok'
+    try:
+        key = common.digest([open(gen).read(), open(props).read()])
+    except OSError:
+        return []
+    try:
+        if open(stamp).read() == key:
+            return []
+    except OSError:
+        pass
+    ok, out = common.lake_build(['Yaql.Gen.Src' + area, 'Yaql.Lemmas.PyPrelude'])
+    if not ok:
+        return []        # the Gen module itself is broken: reported by the build step
+    try:
+        p = subprocess.run(['lake', 'env', 'lean', props_rel], cwd=common.LEAN, stdout=subprocess.PIPE,
+                           stderr=subprocess.STDOUT, text=True, timeout=900)
+    except subprocess.TimeoutExpired:
+        return ['Props/Src%s.lean: elaboration timed out' % area]
+    if p.returncode == 0:
+        open(stamp, 'w').write(key)
+        return []
+    lines = open(props).read().split('\n')
+    starts = [(i + 1, m.group(1)) for i, ln in enumerate(lines)
+              for m in [re.match(r'\s*(?:private |protected )?theorem\s+(\S+)', ln)] if m]
+    bad = {}
+    for m in re.finditer(r'^[^\n:]+:(\d+):\d+: error: ([^\n]*)', p.stdout, re.M):
+        line = int(m.group(1))
+        name = None
+        for st, nm in starts:
+            if st <= line:
+                name = nm
+        if name is not None:
+            bad.setdefault(name, m.group(2))
+    by_thm = {t.theorem: t for t in ST.TARGETS if t.area == area}
+    out_ = []
+    for name, msg in bad.items():
+        t = by_thm.get(name)
+        if t is not None:
+            if t in mine:
+                out_.append('equivalence theorem Yaql.Props.Src%s.%s no longer checks against the current source of %s '
+                            '(the hand-written model expression `%s`): %s' % (area, name, t.qual, t.model, msg[:200]))
+        else:
+            out_.append('lemma Yaql.Props.Src%s.%s no longer checks: %s' % (area, name, msg[:200]))
+    return out_
 
 
 # ------------------------------------------------------------------ python <-> wire
@@ -82,7 +154,7 @@ def enc(ty, v):
         return None
     if k == 'opt':
         return None if v is None else {'some': enc(ty[1], v)}
-    if k == 'list':
+    if k in ('list', 'iter'):
         return [enc(ty[1], x) for x in v]
     if k == 'dict':
         return [[enc(ty[1], a), enc(ty[2], b)] for a, b in v.items()]
@@ -92,6 +164,8 @@ def enc(ty, v):
         c = NAMED.get(ty[1])
         if c:
             return c[0](v)
+    if k == 'fn':
+        return str(int(v))          # the code of a member of the closed family
     raise TypeError('cannot encode %r as %r' % (v, ty))
 
 
@@ -103,7 +177,13 @@ def enc_atom(v):
     return {'s': [ord(c) for c in v]}
 
 
+def enc_value(v):
+    import values
+    return values.enc(v)
+
+
 NAMED = {
+    'Yaql.Value': (enc_value, None),
     'Yaql.Strings.Atom': (enc_atom, None),
     'Nat': (lambda v: str(int(v)), None),
 }
@@ -119,8 +199,9 @@ def real_callable(qual):
 
 def err_name(t, e):
     n = type(e).__name__
+    import py2lean
     table = {}
-    for k, v in t.errors.items():
+    for k, v in list(py2lean.DEFAULT_ERRORS.items()) + list(t.errors.items()):
         table[k.split('.')[-1]] = v
     if n in table and table[n].startswith('(.other') or n in table and table[n].startswith('.other'):
         return 'other' + ''.join(ch for ch in table[n] if ch.isdigit())
@@ -154,12 +235,16 @@ def to_python(ty, v):
     k = ty[0]
     if k == 'list':
         return tuple(to_python(ty[1], x) for x in v)
+    if k == 'iter':
+        return iter([to_python(ty[1], x) for x in v])
     if k == 'opt':
         return None if v is None else to_python(ty[1], v)
     if k == 'dict':
         return dict((to_python(ty[1], a), to_python(ty[2], b)) for a, b in v)
     if k == 'tup':
         return tuple(to_python(t, x) for t, x in zip(ty[1:], v))
+    if k == 'fn':
+        return ST.FN_FAMILIES[ty][1][v]
     return v
 
 
@@ -167,7 +252,7 @@ def to_wire(ty, v):
     k = ty[0]
     if k == 'dict':
         return [[to_wire(ty[1], a), to_wire(ty[2], b)] for a, b in v]
-    if k == 'list':
+    if k in ('list', 'iter'):
         return [to_wire(ty[1], x) for x in v]
     if k == 'opt':
         return None if v is None else {'some': to_wire(ty[1], v)}
@@ -225,7 +310,7 @@ def gen_value(rng, ty, ctx, depth=0):
         return None
     if k == 'opt':
         return None if rng.random() < 0.3 else gen_value(rng, ty[1], ctx, depth)
-    if k == 'list':
+    if k in ('list', 'iter'):
         n = rng.choice([0, 1, 1, 2, 3, 4, 6]) if depth == 0 else rng.choice([0, 1, 2])
         out = [gen_value(rng, ty[1], ctx, depth + 1) for _ in range(n)]
         if depth == 0:
@@ -247,6 +332,8 @@ def gen_value(rng, ty, ctx, depth=0):
         g = NAMED_GEN.get(ty[1])
         if g:
             return g(rng, ctx)
+    if k == 'fn' and ty in ST.FN_FAMILIES:
+        return rng.randrange(len(ST.FN_FAMILIES[ty][1]))
     raise TypeError('no generator for %r' % (ty,))
 
 
@@ -269,9 +356,25 @@ def gen_atom(rng, ctx):
     return gen_str(rng, ctx, 3)
 
 
+def gen_yvalue(rng, ctx, depth=0):
+    """a small yaql value: scalars that collide under python `==` (1, True, 1.0 are excluded: floats are not
+    generated here), strings, nested tuples"""
+    r = rng.random()
+    if r < 0.12:
+        return None
+    if r < 0.27:
+        return rng.random() < 0.5
+    if r < 0.62:
+        return rng.choice([0, 1, 1, 2, 2, 3, -1, 7])
+    if r < 0.85 or depth >= 1:
+        return rng.choice(['', 'a', 'b', 'ab', 'a'])
+    return tuple(gen_yvalue(rng, ctx, depth + 1) for _ in range(rng.choice([0, 1, 2])))
+
+
 NAMED_GEN = {
+    'Yaql.Value': gen_yvalue,
     'Yaql.Strings.Atom': gen_atom,
-    'Nat': lambda rng, ctx: rng.choice([0, 1, 2, 8, 16, 40, 56, 64, 1000]),
+    'Nat': lambda rng, ctx: rng.choice([0, 1, 16, 17, 24, 40, 56, 64, 1000]),
 }
 
 
@@ -304,7 +407,7 @@ def _prepare(t):
     tree, _ = py2lean.load_module_ast(common.REPO, t.module)
     f = py2lean.find_function(tree, t.func)
     t.is_generator = bool(f is not None and py2lean.contains(py2lean.strip_doc(f.body), (ast.Yield, ast.YieldFrom)))
-    t.vararg = bool(f is not None and f.args.vararg)
+    t.vararg = bool(t.vararg or (f is not None and f.args.vararg))
 
 
 def differential(env, res, pid, oracle=None, per_target=None, only=None):
@@ -359,6 +462,8 @@ def differential(env, res, pid, oracle=None, per_target=None, only=None):
             if t.pre is not None and not t.pre(*pyargs):
                 reals.append(None)
                 continue
+            if t.pyargs is not None:
+                pyargs = list(t.pyargs(*pyargs))
             reals.append((pyargs, run_real(t, pyargs)))
         answers = None
         if drv is not None:
